@@ -183,10 +183,37 @@ func (g *gen) wrap(nest int) plgen.Stmt {
 	}
 }
 
+// maxDynamic bounds the number of statements a fault-free run of a generated call tree executes
+// (loops in loops around use() multiply): the step budget of a run (3 000 000 events) is then two
+// orders of magnitude above need, so that "did not return" can only mean non-termination.
+const maxDynamic = 3000
+
+// dynamicSize runs the model without faults and returns how many statements it executes (capped).
+func dynamicSize(w *Workload) int {
+	m := &model{w: w, pos: map[*plgen.Stmt]plgen.Pos{}, fields: map[string]*int64{}, hasKey: map[string]bool{}, limit: 50 * maxDynamic}
+	root := &mframe{name: "r.p", scopes: []map[string]*int64{{}}}
+	m.stmts(root, w.Scripts["r.p"])
+	return m.executed
+}
+
 func (Prop) Generate(seed uint64, tier string) *core.Plan {
-	r := simrt.NewRNG(seed)
+	for attempt := uint64(0); ; attempt++ {
+		p, w := generate(simrt.Mix(seed, attempt), seed, tier, attempt > 2)
+		if dynamicSize(w)*w.Runs <= maxDynamic || attempt > 6 {
+			if attempt > 6 {
+				// give up on size: fall back to a trivially small tree
+				w.Scripts = map[string][]plgen.Stmt{"r.p": {{K: "raw", Op: "obs_var", V: "a", Arg: "obs(a)"}}}
+				p.SetWorkload(w)
+			}
+			return p
+		}
+	}
+}
+
+func generate(gseed, seed uint64, tier string, small bool) (*core.Plan, *Workload) {
+	r := simrt.NewRNG(gseed)
 	g := &gen{r: r, maxNest: r.Intn(3), maxIter: 4}
-	if r.Intn(20) == 0 {
+	if r.Intn(20) == 0 && !small {
 		g.maxIter = 13 // occasionally long loops (N-th iteration effects)
 	}
 	g.pExit = []float64{0, 0.04, 0.1}[r.Intn(3)]
@@ -221,7 +248,7 @@ func (Prop) Generate(seed uint64, tier string) *core.Plan {
 		Rates:       simrt.Rates{Recycle: []float64{0, 0.6, 0.95}[r.Intn(3)], Purge: 0.02, Shuffle: 0.3},
 	}
 	p.SetWorkload(&w)
-	return p
+	return p, &w
 }
 
 func usesUse(ss []plgen.Stmt) bool {
@@ -266,6 +293,8 @@ type model struct {
 	uses   int
 	err    []chainEnt // non-nil: aborted with this chain
 	over   bool       // model ran out of recorded fault decisions
+	// executed counts dynamically executed statements; limit > 0 stops the model (size estimation)
+	executed, limit int
 }
 
 func (f *mframe) lookup(v string) (*int64, bool) {
@@ -333,6 +362,10 @@ func (m *model) readKey(k string) *int64 {
 }
 
 func (m *model) stmt(f *mframe, s *plgen.Stmt) bool {
+	m.executed++
+	if m.limit > 0 && m.executed > m.limit {
+		return false // size estimation only: stop counting
+	}
 	switch s.K {
 	case "raw":
 		switch s.Op {
